@@ -113,6 +113,17 @@ def parse_result(res):
     return green.fields[0].log, list(errors.items)
 
 
+def root_problem(log):
+    """C02: Parse::root() is `SourceFile::cast(..).unwrap()`: every consumer panics unless the returned tree is rooted at SOURCE_FILE"""
+    first = next((e for e in log if e[0] == 'start'), None)
+    if first is None:
+        return 'C02: parse_module returns a tree without a root node'
+    k = kind_of(first[1])
+    if k.sym() or k.v != KINDS['SOURCE_FILE']:
+        return 'C02: parse_module returns a tree rooted at %s, not SOURCE_FILE (a start_node was never finished): Parse::root() panics on its unwrap' % (INV.get(k.v, k.v) if not k.sym() else 'a symbolic kind')
+    return None
+
+
 def log_tokens(log):
     """[(kind IntV, off, len)] in emission order"""
     out = []
